@@ -64,6 +64,7 @@ func checkC03(c c03Case, o *Obs) error {
 	o.LabelIf(len(c.Ref.Seq) > 4096, "width>4096")
 	o.LabelIf(len(c.Recs)*len(c.Ref.Seq) >= 1<<20, "alignment>=1MiB")
 	o.LabelIf(len(c.Ref.Seq) > 65535, "width>65535")
+	o.LabelIf(len(c.Ref.Seq) > 1<<20, "width>2^20")
 	for _, l := range strings.Split(want, "\n") {
 		o.LabelIf(len(l) > 65536, "output-row>64KiB")
 	}
@@ -112,7 +113,7 @@ func genAlnSeq(t *rapid.T, n int, label string) string {
 // genC03Bulk: an alignment whose total size (records x width) is beyond 1 MiB / 2 MiB - the everyday size of a real run
 // (35 SARS-CoV-2 genomes are 1 MiB) - built from a handful of drawn templates so that generation stays cheap.
 func genC03Bulk(t *rapid.T) c03Case {
-	w := rapid.SampledFrom([]int{2000, 5000, 29903, 70000}).Draw(t, "bulkWidth") // 70000: column numbers beyond 16 bits
+	w := rapid.SampledFrom([]int{2000, 5000, 29903, 70000, 70000, 1048600}).Draw(t, "bulkWidth") // 70000: column numbers beyond 16 bits; 1048600: beyond 2^20
 	total := rapid.SampledFrom([]int{1100000, 1300000, 2200000}).Draw(t, "bulkTotal")
 	unit := genACGT(t, 997, "bulkUnit")
 	ref := []byte(strings.Repeat(unit, w/997+1)[:w])
@@ -143,12 +144,20 @@ func genC03Bulk(t *rapid.T) c03Case {
 		templates = append(templates, string(b))
 	}
 	n := total/w + 2
+	if w > 1<<20 {
+		n = 2
+	}
 	for i := 0; i < n; i++ {
 		c.Recs = append(c.Recs, FaRec{ID: fmt.Sprintf("s%d", i), Seq: templates[rapid.IntRange(0, 5).Draw(t, "template")]})
 	}
 	c.RefLay = plainLayout()
 	c.AlnLay = Layout{FinalNL: true, Width: rapid.SampledFrom([]int{0, 0, 60}).Draw(t, "alnWidth")}
 	c.CLI = rapid.IntRange(0, 3).Draw(t, "cli") == 0
+	if w > 1<<20 {
+		// the readers take lines of up to 1 MiB: a chromosome-sized alignment has to be wrapped
+		c.RefLay.Width, c.AlnLay.Width = 60000, 60000
+		c.CLI = false
+	}
 	return c
 }
 
